@@ -156,7 +156,10 @@ def corpus_numbers():
              b"9007199254740993.0", b"123456789012345678901234567890", b"1e22", b"1e23", b"1.0e22", b"4503599627370496.5", b"0.000001", b"0.0000001", b"1e-7",
              b"1.", b"1.e3", b"1e", b"1e+", b"#x1.5", b"#b12", b"#xg", b"+1", b"-1", b"+.5", b"1/2", b"1+", b"12ab", b"0x10", b"1.5.6", b"1e3.5", b"1e3e4", b"00", b"007",
              b"#d-12.5e-1", b"#d1e2", b"#x1e2", b"#xe", b"#xE1", b"#b1e1", b"1e0", b"1e00000000000000000000001", b"1e99999999999999999999", b"0e99999999999999999999",
-             b"1e-99999999999999999999", b"0.0", b"-0.0", b"5e-324", b"2e-324", b"1.7976931348623157e308", b"1.7976931348623159e308"]
+             b"1e-99999999999999999999", b"0.0", b"-0.0", b"5e-324", b"2e-324", b"1.7976931348623157e308", b"1.7976931348623159e308",
+             b"3.14159265358979323846264338328", b"6.0221407600000000000000000e23", b"184467440737095516150.5", b"0.10000000000000000000000000001",
+             b"1.00000000000000000000000000000", b"99999999999999999999.99999999999999999999", b"18446744073709551615.5", b"1844674407370955161.65",
+             b"0.000000000000000000000000000001234567890123456789012345", b"123456789012345678.90123456789e-5", b"-2.718281828459045235360287471352"]
     out = []
     for t in texts:
         for o in (DEFAULT, P(dg=1)):
